@@ -215,6 +215,154 @@ theorem scode_iterate (w : Bool) (KC : Codec K) (VC : Codec V) (m : Store) (pfx 
   rw [hshape]
   exact iterate_outer w KC VC m pfx bwd stop F _ _ (consumer_spec w KC VC F default default pfx bwd stop)
 
+/-! ## `IterateKeys`: the same with a one-argument closure, at `V := Unit` -/
+
+def consumerKeysOf : SStmt → SStmt
+  | .seq _ (.seq (.seq (.iterKeys _ c _) _) _) => c
+  | _ => .skip
+
+def notDecV (e : SEv) : Bool := e.call != .decV
+
+def ConsPostK (KC : Codec K) (F : SFaults) (stop inner : Nat) (m : SM K Unit) (kb : Bytes) (m2 : SM K Unit) (b : Bool) : Prop :=
+  m2.st = m.st ∧
+  match decAt KC F m.ndec kb with
+  | none => b = false ∧ m2.acc = m.acc ∧ m2.tr = m.tr ++ [⟨.decK, .fail⟩] ∧ m2.e inner = .inj .decK ∧ m2.ndec = m.ndec + 1
+  | some k =>
+    m2.acc = m.acc ++ [(k, ())] ∧ (m2.e inner).isNil = true ∧ m2.ndec = m.ndec + 1 ∧
+    (if (m.acc ++ [(k, ())]).length = stop then b = false ∧ m2.tr = m.tr ++ [⟨.decK, .ok⟩, ⟨.cb, .nc⟩]
+     else b = true ∧ m2.tr = m.tr ++ [⟨.decK, .ok⟩, ⟨.cb, .ok⟩])
+
+def ConsSpecK (run : SM K Unit → SOutc K Unit) (KC : Codec K) (F : SFaults) (stop kp inner : Nat) : Prop :=
+  ∀ (m : SM K Unit) (kb vb : Bytes), (m.e inner).isNil = true →
+    match run ((m.setY kp kb).setY 0 vb) with
+    | .done m2 (.adv b) => ConsPostK KC F stop inner m kb m2 b
+    | _ => False
+
+theorem consumerKeys_spec (w : Bool) (KC : Codec K) (VC : Codec Unit) (F : SFaults) (key : K) (pfx : Bytes) (bwd : Bool) (stop : Nat) :
+    ConsSpecK (sexec KC VC F w key () pfx bwd stop (consumerKeysOf sprog.iterateKeys)) KC F stop 4 3 := by
+  intro m kb vb hnil
+  simp only [sprog, code_IterateKeys, consumerKeysOf, ConsPostK]
+  cases hk : decAt KC F m.ndec kb with
+  | none => simp [sexec, hk, SM.setY, SM.setK, SM.setE, SM.log, SEV.isNil, evalSE]
+  | some k =>
+    by_cases hs : (m.acc ++ [(k, ())]).length = stop
+    · simp [sexec, hk, SM.setY, SM.setK, SM.setE, SM.log, SEV.isNil, evalSE]
+      simp at hs
+      simp [hs]
+      simpa [SEV.isNil] using hnil
+    · simp [sexec, hk, SM.setY, SM.setK, SM.setE, SM.log, SEV.isNil, evalSE]
+      simp at hs
+      simp [hs]
+      simpa [SEV.isNil] using hnil
+
+theorem filt_ok_cb : ([⟨.decK, .ok⟩, ⟨.decV, .ok⟩, ⟨.cb, .ok⟩] : List SEv).filter notDecV = [⟨.decK, .ok⟩, ⟨.cb, .ok⟩] := by decide
+theorem filt_ok_nc : ([⟨.decK, .ok⟩, ⟨.decV, .ok⟩, ⟨.cb, .nc⟩, ⟨.kvIter, .ok⟩] : List SEv).filter notDecV =
+    [⟨.decK, .ok⟩, ⟨.cb, .nc⟩, ⟨.kvIter, .ok⟩] := by decide
+theorem filt_fail : ([⟨.decK, .fail⟩, ⟨.kvIter, .ok⟩] : List SEv).filter notDecV = [⟨.decK, .fail⟩, ⟨.kvIter, .ok⟩] := by decide
+theorem filt_it (r : CallRes) : ([⟨.kvIter, r⟩] : List SEv).filter notDecV = [⟨.kvIter, r⟩] := by cases r <;> decide
+
+/-- Like `LoopRel`, against the hand-written key loop whose trace drops the value-decode events of the shared `iterLoop`. -/
+structure LoopRelK (m' : SM K Unit) (failed : Bool) (inner : Nat) (st : Store) (res : List (K × Unit) × Option SErr × List SEv) : Prop where
+  st : m'.st = st
+  acc : m'.acc = res.1
+  tr : m'.tr = res.2.2.filter notDecV
+  status : res.2.1 = if failed then some .kv else (if (m'.e inner).isNil then none else some (m'.e inner).kind)
+
+theorem iterLoopC_eq_keys (run : SM K Unit → SOutc K Unit) (KC : Codec K) (F : SFaults) (stop kp inner : Nat)
+    (hrun : ConsSpecK run KC F stop kp inner) :
+    ∀ (es : List (Bytes × Bytes)) (n : Nat) (m : SM K Unit) (tr : List SEv), m.ndec = n → (m.e inner).isNil = true →
+      m.tr = tr.filter notDecV →
+      LoopRelK (iterLoopC run F.kvAfter kp 0 es n m).1 (iterLoopC run F.kvAfter kp 0 es n m).2 inner m.st
+        (iterLoop F.kvAfter stop (mapIdxFrom (decKeyEntry KC F) n es) n m.acc tr) := by
+  intro es
+  induction es with
+  | nil =>
+    intro n m tr _ hnil htr0
+    simp only [iterLoopC, mapIdxFrom, iterLoop]
+    exact ⟨rfl, rfl, by simp only [SM.log, htr0, List.filter_append, filt_it], by simp [SM.log, hnil]⟩
+  | cons e rest ih =>
+    intro n m tr hnd hnil htr0
+    subst hnd
+    simp only [iterLoopC, mapIdxFrom, iterLoop]
+    by_cases hkv : F.kvAfter = some m.ndec
+    · simp only [hkv, if_true]
+      exact ⟨rfl, rfl, by simp only [SM.log, htr0, List.filter_append, filt_it], by simp⟩
+    · simp only [hkv, if_false]
+      have h := hrun m e.1 e.2 hnil
+      cases hr : run ((m.setY kp e.1).setY 0 e.2) with
+      | cont m2 => simp [hr] at h
+      | done m2 r =>
+        cases r with
+        | v x e' => simp [hr] at h
+        | b x e' => simp [hr] at h
+        | e e' => simp [hr] at h
+        | adv b =>
+          simp only [hr] at h
+          obtain ⟨hst, hpost⟩ := h
+          simp only [decKeyEntry]
+          cases hk : decAt KC F m.ndec e.1 with
+          | none =>
+            simp only [hk] at hpost
+            obtain ⟨rfl, hacc, htr, hinn, _⟩ := hpost
+            simp only
+            exact ⟨hst, by simp [SM.log, hacc],
+              by simp only [SM.log, htr, htr0, List.filter_append, filt_fail, List.append_assoc, List.cons_append, List.nil_append],
+              by simp [SM.log, hinn, SEV.isNil, SEV.kind]⟩
+          | some k =>
+            simp only [hk] at hpost
+            obtain ⟨hacc, hinn, hnd2, hif⟩ := hpost
+            simp only
+            by_cases hs : (m.acc ++ [(k, ())]).length = stop
+            · simp only [hs, if_true] at hif ⊢
+              obtain ⟨rfl, htr⟩ := hif
+              simp only
+              exact ⟨hst, by simp [SM.log, hacc],
+                by simp only [SM.log, htr, htr0, List.filter_append, filt_ok_nc, List.append_assoc, List.cons_append, List.nil_append],
+                by simp [SM.log, hinn]⟩
+            · simp only [hs, if_false] at hif ⊢
+              obtain ⟨rfl, htr⟩ := hif
+              simp only
+              have hih := ih (m.ndec + 1) m2 (tr ++ [⟨.decK, .ok⟩, ⟨.decV, .ok⟩, ⟨.cb, .ok⟩]) hnd2 hinn
+                (by simp only [htr, htr0, List.filter_append, filt_ok_cb])
+              rw [hacc, hst] at hih
+              exact hih
+
+theorem iterateKeys_outer (w : Bool) (KC : Codec K) (VC : Codec Unit) (m : Store) (pfx : Bytes) (bwd : Bool) (stop : Nat) (F : SFaults)
+    (c : SStmt) (msg : String)
+    (hc : ConsSpecK (sexec KC VC F w (default : K) () pfx bwd stop c) KC F stop 4 3) :
+    sfinishIter (sexec KC VC F w (default : K) () pfx bwd stop
+      (.seq .skip (.seq (.seq (.iterKeys 4 c 7) (.ifErr 7 (.retE (.wrap (.var 7) msg)))) (.retE (.var 3)))) (sstart m)) =
+      siterateKeys KC m pfx bwd stop F := by
+  simp only [siterateKeys]
+  cases hf : F.kv1 with
+  | true => cases w <;> simp [sexec, sstart, sfinishIter, evalSE, serrW, SM.setE, SM.log, SEV.isNil, SEV.kind, hf]
+  | false =>
+    have hl := iterLoopC_eq_keys _ KC F stop 4 3 hc ((sstart m : SM K Unit).st.entries pfx bwd) 0 (sstart m) [] rfl rfl rfl
+    simp only [sstart] at hl
+    simp only [sexec, hf, Bool.false_eq_true, if_false, sstart]
+    generalize iterLoopC (sexec KC VC F w (default : K) () pfx bwd stop c) F.kvAfter 4 0 (Store.entries m pfx bwd) 0
+      { st := m, y := fun _ => [], v := fun _ => default, kk := fun _ => default, e := fun _ => SEV.nil, tr := [], ndec := 0, acc := [] } = r at hl ⊢
+    obtain ⟨r1, failed⟩ := r
+    obtain ⟨hst, hacc, htr, hstatus⟩ := hl
+    simp only at hst hacc htr hstatus
+    have hfilter : ∀ l : List SEv, l.filter notDecV = l.filter (fun e => e.call != .decV) := fun _ => rfl
+    cases failed with
+    | true =>
+      simp only [if_true] at hstatus
+      cases w <;> simp [sfinishIter, evalSE, serrW, SM.setE, SEV.isNil, SEV.kind, hst, hacc, htr, hstatus, hfilter]
+    | false =>
+      simp only [Bool.false_eq_true, if_false] at hstatus
+      cases hn : (r1.e 3).isNil <;> simp [sfinishIter, evalSE, SM.setE, SEV.isNil, hst, hacc, htr, hstatus, hn, hfilter]
+
+/-- The translated `IterateKeys` is the model's `siterateKeys`. -/
+theorem scode_iterateKeys (w : Bool) (KC : Codec K) (m : Store) (pfx : Bytes) (bwd : Bool) (stop : Nat) (F : SFaults) :
+    sexecKeys w sprog KC m pfx bwd stop F = siterateKeys KC m pfx bwd stop F := by
+  have hshape : sprog.iterateKeys = .seq .skip (.seq (.seq (.iterKeys 4 (consumerKeysOf sprog.iterateKeys) 7)
+      (.ifErr 7 (.retE (.wrap (.var 7) "failed to iterate keys over KV store")))) (.retE (.var 3))) := rfl
+  simp only [sexecKeys]
+  rw [hshape]
+  exact iterateKeys_outer w KC _ m pfx bwd stop F _ _ (consumerKeys_spec w KC _ F default pfx bwd stop)
+
 /-- Every operation of the translated code is the model's `sstep`. -/
 theorem sexecOp_eq_sstep (w : Bool) (KC : Codec K) (VC : Codec V) (m : Store) (op : SOp K V) (F : SFaults) :
     sexecOp w sprog KC VC m op F = sstep KC VC m op F := by
